@@ -2,7 +2,7 @@ import io
 from . import ref
 
 
-def replay_truncate(kind, blocked, lengths, t, items=None):
+def replay_truncate(kind, blocked, lengths, t, items=None, api='class'):
     from cardutil import mciipm
     f = io.BytesIO()
     if kind == 'vbs':
@@ -27,6 +27,17 @@ def replay_truncate(kind, blocked, lengths, t, items=None):
         pos += 4 + len(r)
         if pos <= surv:
             complete += 1
+    if api == 'func':
+        try:
+            got = mciipm.vbs_bytes_to_list(data, blocked=True) if blocked else mciipm.vbs_bytes_to_list(data)
+        except mciipm.MciIpmDataError:
+            return False, 'refused', None
+        except Exception as e:
+            return True, 'vbs_bytes_to_list raised %s' % type(e).__name__, 'C09/exception'
+        if got != items[:complete]:
+            return True, 'cut at %d of %d: vbs_bytes_to_list returned %d records (lengths %s), %d are complete' % (
+                t, len(full), len(got), [len(g) for g in got][:4], complete), 'C09/records'
+        return False, 'ok', None
     rd = (mciipm.VbsReader if kind == 'vbs' else mciipm.IpmReader)(io.BytesIO(data), blocked=blocked)
     got = []
     try:
